@@ -1,7 +1,9 @@
 //! C06: GenericArray::into_iter() as a double-ended, exact-size, fused queue.
 //! Case: [N, a_0..a_{N-1}, ops...]; ops: 0 next, 1 next_back, 2 nth n, 3 nth_back n,
 //! 4 len, 5 size_hint, 6 as_slice, 7 write i v, 8 clone_obs, 9 clone_swap,
-//! 10 fold(clone), 11 rfold(clone), 12 count(clone), 13 last(clone), 14 debug.
+//! 10 fold(clone), 11 rfold(clone), 12 count(clone), 13 last(clone), 14 debug,
+//! 15 fold / 16 rfold of the iterator ITSELF (it is consumed: these end a history; plain u32 run only, where
+//! the visited values are what a clone's fold visits).
 //! Observables, per op: 0 | 1 x | 2 n | 3 lo hi | 4 k x1..xk | 5 (unit) | 6 (panic).
 use generic_array::typenum::*;
 use generic_array::{ArrayLength, GenericArray, GenericArrayIter};
@@ -126,6 +128,21 @@ fn run<E: El, N: ArrayLength>(vals: &[i128], ops: &[i128]) -> Vec<i128> {
                 out.push(it.clone().count() as i128)
             }
             13 => opt(&mut out, it.clone().last()),
+            15 | 16 => {
+                // consumes the iterator: whatever follows in the case is not run
+                let mut seen = vec![];
+                if code == 15 {
+                    let n = it.fold(0usize, |acc, x| {
+                        seen.push(x);
+                        acc + 1
+                    });
+                    assert_eq!(n, seen.len());
+                } else {
+                    it.rfold((), |_, x| seen.push(x));
+                }
+                list(&mut out, &seen);
+                return out;
+            }
             14 => {
                 // Debug must show exactly the remaining elements
                 let s = format!("{:?}", it);
@@ -297,6 +314,25 @@ fn main() {
                     for ix in 0..=(len + 1) {
                         ops_list.push(vec![7, ix as i128, 7000 + ix as i128]);
                     }
+                    if !std::env::args().any(|a| a == "cn") {
+                        // fold / rfold of the iterator itself, from this (front, back) position
+                        for code in [15i128, 16] {
+                            let mut case = vec![n as i128];
+                            case.extend(&vals);
+                            for _ in 0..f {
+                                case.push(0);
+                            }
+                            for _ in 0..b {
+                                case.push(1);
+                            }
+                            if via_clone {
+                                case.push(9);
+                            }
+                            case.push(code);
+                            dist(&format!("op{}", code));
+                            do_case(case);
+                        }
+                    }
                     for op in ops_list {
                         let mut case = vec![n as i128];
                         case.extend(&vals);
@@ -318,6 +354,21 @@ fn main() {
                 }
             }
         }
+    }
+    // Debug of an iterator with many elements still to come (97: every one of them must be shown)
+    for (f, b) in [(0usize, 0usize), (3, 0), (0, 5), (30, 30), (60, 36)] {
+        let n = 97usize;
+        let mut case = vec![n as i128];
+        case.extend((0..n).map(|i| 100 + i as i128));
+        for _ in 0..f {
+            case.push(0);
+        }
+        for _ in 0..b {
+            case.push(1);
+        }
+        case.push(14);
+        dist("op14_long");
+        do_case(case);
     }
     // seeded long histories
     let mut rng = Rng::new(a.seed);
